@@ -144,7 +144,7 @@ def gen_behaviours(d, tables, keys, maxlen, rich, rep, label, shards=13):
     for i, g in enumerate(groups):
         cfg = d / ("gencfg-%s-%d.json" % (label, i))
         cfg.write_text(json.dumps({"versions": g, "maxlen": maxlen, "export": 1, "rich": rich}))
-        jobs.append(lambda cfg=cfg, i=i: lib.tlc("BytecodeGen", workers=1, timeout=3000, heap="2g",
+        jobs.append(lambda cfg=cfg, i=i: lib.tlc("BytecodeGen", workers=1, coverage=True, timeout=3000, heap="2g",
                                                   env={"TABLES_FILE": tables, "GEN_CFG": cfg}, tag="bcgen-%s-%d" % (label, i)))
     res = run_parallel(jobs)
     beh = []
@@ -228,6 +228,9 @@ def pipeline(pid, tier, rep):
     reps = [k for k in ("x1.5", "x2.7", "x3.5", "x3.8", "x3.10", "x3.11", "x3.12", "x3.13") if k in xkeys]
     if not quick:
         beh += gen_behaviours(d, tables, reps, 2, 1, rep, "rich", shards=8)
+    for act in ("Add", "Finish"):
+        if not rep.extra.get("actions_fired", {}).get(act):
+            raise lib.Machinery("vacuous generator run: action %s of BytecodeGen never fired" % act)
     seen = set()
     ub = []
     for b in beh:
